@@ -285,6 +285,22 @@ func H_C11_execAlone() {
 		return c11Exec(t, k)
 	}
 	wantA, wantB := solo(a), solo(b)
+	// optionally a sequential warm-up that exercises pools on their rarely taken paths
+	// (range-else over empty collections, a failing execution) before the concurrent part
+	if w := ndChoice("warmup", 3); w > 0 {
+		wsrc := `{{ range e }}x{{ else }}y{{ end }}{{ range k, v := em }}x{{ else }}y{{ end }}`
+		if w == 2 {
+			wsrc = `{{ try }}{{ range s }}{{ nope }}{{ end }}{{ end }}{{ range s }}{{ nope }}{{ end }}`
+		}
+		if tw, err := set.Parse("/w.jet", wsrc); err == nil {
+			var sink bytes.Buffer
+			wv := make(VarMap)
+			wv.Set("e", []string{})
+			wv.Set("em", map[string]int{})
+			wv.Set("s", []string{"a"})
+			tw.Execute(&sink, wv, nil)
+		}
+	}
 	reps := 1
 	if !vfSymbolic() {
 		reps = 200
